@@ -56,15 +56,21 @@ class Endless(Exception):
 
 
 def _fire(signum, frame):
-    raise Endless("no result in time")
+    # the timer runs on the wall clock, the limit is CPU time of the main thread: a thread that is merely starved
+    # (a loaded machine, other threads holding the GIL) is never interrupted, an endless loop is
+    if _thread_time() - _T0[0] > _T0[1]:
+        raise Endless("no result after %.0f s of CPU time" % _T0[1])
+    _setitimer(_ITIMER_REAL, 1.0)
 
 
 _ARMED = [None]
+_T0 = [0.0, 3.0]
 
 
 class deadline(object):
-    """with deadline(seconds): ... -- raises Endless inside the block (main thread only; elsewhere no limit);
-    the handler is installed once, a block costs two setitimer calls; blocks may nest (the outer limit is dropped)"""
+    """with deadline(cpu_seconds): ... -- raises Endless inside the block once the main thread has burnt that much CPU
+    time in it (main thread only; elsewhere no limit); the handler is installed once, a block costs two setitimer calls;
+    blocks may nest (the outer limit is dropped)"""
 
     def __init__(self, seconds=3.0):
         self.seconds = seconds
@@ -77,7 +83,8 @@ class deadline(object):
             if _ARMED[0]:
                 signal.signal(signal.SIGALRM, _fire)
         if _ARMED[0]:
-            _setitimer(_ITIMER_REAL, self.seconds)
+            _T0[0], _T0[1] = _thread_time(), self.seconds
+            _setitimer(_ITIMER_REAL, 1.0)
         return self
 
     def __exit__(self, *exc):
@@ -86,6 +93,7 @@ class deadline(object):
         return False
 
 
+from time import thread_time as _thread_time      # noqa: E402
 from signal import setitimer as _setitimer, ITIMER_REAL as _ITIMER_REAL      # noqa: E402
 
 
